@@ -2099,9 +2099,11 @@ class LetMacro(Macro):
 
         body = goal.lhs
         xs = []
+        bound = dict()
         while body != last_step.lhs and body.is_let():
-            x, _, body = body.dest_let()
+            x, t, body = body.dest_let()
             xs.append(x)
+            bound[x] = t
 
         # body should equal to the left side of last_step
         if body != last_step.lhs:
@@ -2114,8 +2116,18 @@ class LetMacro(Macro):
 
         remain_hyps = []
         for hyp in last_step.hyps:
-            if not (hyp.is_equals() and hyp.lhs in xs):
+            if hyp.is_equals() and hyp.lhs in xs:
+                # x = s is discharged only if the term bound to x equals s by a premise.
+                t, s = bound[hyp.lhs], hyp.rhs
+                if t != s and (t, s) not in ctx and (s, t) not in ctx:
+                    raise VeriTException("let", "no premise equates %s with %s" % (t, s))
+            else:
                 remain_hyps.append(hyp)
+
+        # The let-bound variables may not be left free in the result.
+        for x in xs:
+            if goal.rhs.occurs_var(x) or any(hyp.occurs_var(x) for hyp in remain_hyps):
+                raise VeriTException("let", "bound variable %s occurs free in the result" % x)
         return Thm(goal, tuple(remain_hyps), *(prop.hyps for prop in prevs[:-1]))
 
     def get_proof_term(self, args, prevs):
